@@ -120,6 +120,67 @@ def check_unicode(n1, n2):
     return out
 
 
+def check_keys_alias(shape):
+    """what `keys` hands out belongs to the caller: sorting, emptying or extending it, or walking it while adding / removing, leaves
+    the enumeration agreeing with the dict that underwent the same operations"""
+    from pyscsi.utils.enum import Enum
+    out = []
+    init = collections.OrderedDict([("Z", 1), ("M", 1), ("A", 2), ("D", 3)])
+    e = Enum(dict(init))
+    model = collections.OrderedDict(init)
+    where = "keys result %s" % shape
+    try:
+        if shape == "sorted":
+            ks = e.keys
+            ks.sort()
+        elif shape == "cleared":
+            ks = e.keys
+            ks.clear()
+        elif shape == "extended":
+            ks = e.keys
+            ks.append("GHOST")
+        elif shape == "walk_remove":
+            for nm in e.keys:          # (the caller's own snapshot of the names: every one of them gets removed)
+                e.remove(nm)
+            model.clear()
+        elif shape == "walk_add":
+            n = 0
+            for nm in e.keys:
+                n += 1
+                if n > 50:
+                    out.append(("keys_alias/walk_add_endless", "walking keys while adding never ends: the list grows under the loop"))
+                    break
+                e.add(nm + "_ALIAS", getattr(e, nm))
+                model[nm + "_ALIAS"] = model[nm]
+        elif shape == "held":
+            ks = e.keys
+            e.add("LATE", 9)
+            model["LATE"] = 9
+            if "LATE" in ks and len(ks) != 4:
+                pass
+    except Exception as ex:   # noqa: BLE001
+        out.append(("keys_alias/raises", "%s: %s: %s" % (where, type(ex).__name__, ex)))
+        return out
+    if sorted(e.keys) != sorted(model):
+        out.append(("keys_alias/names", "%s: the enumeration now lists %r, the dict %r" % (where, sorted(e.keys), sorted(model))))
+    for k, v in model.items():
+        if getattr(e, k, "<missing>") != v:
+            out.append(("keys_alias/value", "%s: .%s is %r, expected %r" % (where, k, getattr(e, k, "<missing>"), v)))
+    first = {}
+    for k, v in model.items():
+        first.setdefault(v, k)
+    for v, k in first.items():
+        if e[v] != k:
+            out.append(("keys_alias/reverse", "%s: reverse lookup of %r gives %r, the first name carrying it is %r" % (where, v, e[v], k)))
+    try:
+        e.add("Z" if "Z" in model else "NEWNAME", 5)
+        if "Z" in model:
+            out.append(("keys_alias/readd", "%s: adding the existing name 'Z' again was accepted" % where))
+    except KeyError:
+        pass
+    return out
+
+
 def check_names(form, name, shape):
     """construction with member names that could collide with parameter names of the constructor (keyword form binds by name)"""
     from pyscsi.utils.enum import Enum
@@ -262,6 +323,8 @@ def run_case(case):
         return check_names(case[1], case[2], case[3])
     if case[0] == "unicode":
         return check_unicode(case[1], case[2])
+    if case[0] == "keys_alias":
+        return check_keys_alias(case[1])
     idx, hist, nv = case
     vals = values(nv)
     enums, models, v = build(INITS[idx], [tuple(o) for o in hist], vals)
@@ -289,6 +352,15 @@ def run_partition(part, tier, seed):
                     for k, w in v:
                         acc.violation(k, w, case)
                     acc.outcome((tuple(case), tuple(k for k, _ in v)))
+        for shape in ("sorted", "cleared", "extended", "walk_remove", "walk_add", "held"):
+            case = ["keys_alias", shape]
+            acc.case(case, nontrivial=True, key=tuple(case))
+            v = check_keys_alias(shape)
+            acc.transitions += 4
+            acc.traces += 1
+            for k, w in v:
+                acc.violation(k, w, case)
+            acc.outcome((tuple(case), tuple(k for k, _ in v)))
         for n1 in UNICODE_NAMES:
             for n2 in UNICODE_NAMES:
                 case = ["unicode", n1, n2]
